@@ -10,6 +10,7 @@ require (
 	github.com/rs/zerolog v1.34.0
 	github.com/semafind/semadb v0.0.0
 	github.com/vmihailenco/msgpack/v5 v5.4.1
+	golang.org/x/sys v0.33.0
 )
 
 require (
@@ -35,7 +36,6 @@ require (
 	github.com/rs/xid v1.6.0 // indirect
 	github.com/vmihailenco/tagparser/v2 v2.0.0 // indirect
 	go.etcd.io/bbolt v1.4.0 // indirect
-	golang.org/x/sys v0.33.0 // indirect
 	google.golang.org/protobuf v1.36.6 // indirect
 )
 
